@@ -54,4 +54,4 @@ ok = res['demo_on_original_exit'] == 0 and res['demo_with_change_exit'] not in (
 print('%s m%s: confirmed=%s caught_by=%s' % (pid, n, ok, res['caught_by']))
 for l in res['checks']:
     print('   ', l[:180])
-shutil.rmtree(os.path.join(VERIF, 'replays'), ignore_errors=True)
+shutil.rmtree(os.path.join(VERIF, 'replays', pid), ignore_errors=True)
